@@ -331,6 +331,12 @@ func checkGetOpts(r *Run, prog *Program, a *Anchors, pfx string) {
 				}
 			}
 			if !exhausted {
+				// an empty list needs no loop
+				if eq, known := evalEq(sm.St, &Sym{K: sLen, A: pOpt}, &Sym{K: sConst, C: constant.MakeInt64(0)}); known && eq {
+					exhausted = true
+				}
+			}
+			if !exhausted {
 				okLoop, why2 = false, "getOpts returns on a path that leaves the loop over the options before the list is exhausted (a nil entry is skipped, it does not end the fold) [path "+strings.Join(sm.St.trail, " ")+"]"
 			}
 		}
